@@ -606,6 +606,13 @@ func (env *LEnv) Put(k, v *LVal) *LVal {
 	if k.Str == TrueSymbol || k.Str == FalseSymbol {
 		return env.Errorf("cannot rebind constant: %v", k.Str)
 	}
+	if strings.HasPrefix(k.Str, ":") {
+		// A keyword evaluates to itself and is never looked up, so a lexical
+		// binding for it could only be written, never read.  PutGlobal
+		// already refuses it; refuse it here too so that let, lambda formals
+		// and set! agree.
+		return env.Errorf("cannot bind keyword: %v", k.Str)
+	}
 	env.scope[k.Str] = v
 	return Nil()
 }
